@@ -284,11 +284,14 @@ META["C11"] = dict(
                                        "PeerState starts Idle with a previous session result stored (a reachable state)"],
 )
 META["C13"] = dict(
-    engine=E3ENG,
-    functions=["store::fs::StoreInstance::entry_put::{closure#0} (the write of records / by-key / latest-per-author rows)"],
-    bounds="all paths of the closure; ghost pre-state: head row absent, or present with an arbitrary timestamp; timestamps ordered by one total preorder",
-    outside="AuthorHeads (BTreeMap: intractable for CBMC, loops for E3), migrations, has_news_for_us",
-    assumptions=["redb Table::get/insert behave as documented (modelled by the ghost row)", "the `?`/match unpacking shapes of the lookup are the ones recognised by the query (otherwise: inconclusive)"],
+    engine=E3ENG.replace("loop-free bodies", "bodies (loops over the head set unrolled over K symbolic heads)"),
+    functions=["store::fs::StoreInstance::entry_put::{closure#0} (the write of records / by-key / latest-per-author rows)",
+               "heads::AuthorHeads::has_news_for and its closure", "heads::AuthorHeads::encode and its closure"],
+    bounds="entry_put: all paths, ghost head row absent or present with an arbitrary timestamp; has_news_for: K = 0..3 of our heads x every present/absent pattern of the peer's, comparisons symbolic; encode: K = 0..3 heads in every weak order of their timestamps (ties included), with and without a symbolic size limit (thorough: K <= 4)",
+    outside="AuthorHeads::decode / merge / insert (postcard::from_bytes, BTreeMap entry API), migrations (C18), the gossip code that sends and compares the heads",
+    assumptions=["redb Table::get/insert behave as documented (modelled by the ghost row)", "std BTreeMap / BTreeSet: ordered, insert replaces on an equal key, iteration in key order",
+                 "postcard: serialized_size(items) equals the length of to_stdvec(items) and grows with every item",
+                 "the `?`/match unpacking shapes of the lookup are the ones recognised by the query (otherwise: inconclusive)"],
 )
 META["C17"] = dict(
     engine=E3ENG.replace("loop-free bodies", "bodies (the two `for` loops over the peer row unrolled: the row iterator is a concrete window over K <= 5 rows; `len` folded as a constant)"),
